@@ -129,6 +129,16 @@ def c02(seed, tier):
         if placement == "nested":
             fields = [fld("N", [], nested=fields)]
         scen.append(scenario("c02" + placement, [struct("T", fields, cases)], aux=list(aux)))
+    # two required fields whose dot-free paths coincide (Account.UserID / Account.User.ID): both must still be checked
+    st = basic("string")
+    coll = struct("Account", [fld("UserID", ["//govalid:required"], st),
+                              fld("User", [], nested=[fld("ID", ["//govalid:required"], st), fld("Tags", ["//govalid:required"], SLICE)]),
+                              fld("UserTags", ["//govalid:required"], SLICE)],
+                  [case([]), case([set_str("UserID", b"u")]), case([set_str("User.ID", b"i")]), case([set_str("UserID", b"u"), set_str("User.ID", b"i")]),
+                   case([set_str("UserID", b"u"), set_str("User.ID", b"i"), set_coll("User.Tags", False, 0)]),
+                   case([set_str("UserID", b"u"), set_str("User.ID", b"i"), set_coll("UserTags", False, 1)]),
+                   case([set_str("UserID", b"u"), set_str("User.ID", b"i"), set_coll("User.Tags", False, 1), set_coll("UserTags", False, 0)])])
+    scen.append(scenario("c02coll", [coll]))
     return {"scenarios": scen}
 
 
@@ -414,6 +424,13 @@ def rand_struct(rng, name, nfields, depth, prefix="", counter=None):
             lattices += sublat
         else:
             f, vals = fg.any(fname)
+            if rng.random() < 0.15:
+                # `A, B T`: every name is governed by the markers of the declaration
+                counter[0] += 1
+                second = "F%d" % counter[0]
+                f["names"] = [fname, second]
+                if vals:
+                    lattices.append((prefix + second, vals))
             fields.append(f)
             if vals:
                 lattices.append((prefix + fname, vals))
@@ -470,6 +487,14 @@ def known_shapes(prefix):
     out.append(scenario(prefix + "d7", [struct("T", [
         fld("Outer", ["//govalid:required"], nested=[fld("Inner", [], s)])],
         [case([]), case([set_str("Outer.Inner", b"x")])])]))
+    # D7 again, with the inner fields carrying markers of their own (those must still be checked)
+    i64 = basic("int")
+    out.append(scenario(prefix + "d7b", [struct("T", [
+        fld("Before", ["//govalid:required"], s),
+        fld("Customer", ["//govalid:required"], nested=[fld("Name", ["//govalid:maxlength=5"], s), fld("Age", ["//govalid:gte=18"], i64)]),
+        fld("After", ["//govalid:required"], s)],
+        [case([]), case([set_str("Before", b"b"), set_str("Customer.Name", b"toolongname"), set_int("Customer.Age", 5), set_str("After", b"a")]),
+         case([set_str("Before", b"b"), set_str("Customer.Name", b"ok"), set_int("Customer.Age", 30), set_str("After", b"a")])])]))
     # D8: struct-level marker together with a nested struct: duplicate declarations
     out.append(scenario(prefix + "d8", [struct("T", [
         fld("A", [], s), fld("N", [], nested=[fld("X", [], s)])],
@@ -642,6 +667,9 @@ def c15(seed, tier):
                               fld("T", ["//govalid:ipv4"], s)], []))
     # struct-level markers
     shapes.append(("slevel", [fld("A", [], s), fld("B", ["//govalid:maxlength=3"], s), fld("K", [], i64), fld("L", [], SLICE)], ["//govalid:required"]))
+    # multi-name declarations: one cancellation point per validated field
+    shapes.append(("multi", [fld("ID", ["//govalid:required"], s), fld(["First", "Second", "Third"], ["//govalid:required"], s),
+                             fld(["X", "Y"], ["//govalid:gt=0"], i64)], []))
     # a single field; a required on a type with an empty condition (no check but a validator)
     shapes.append(("one", [fld("A", ["//govalid:required"], s)], []))
     shapes.append(("emptycond", [fld("O", ["//govalid:required"], OTHER_STRUCT), fld("A", ["//govalid:required"], s)], []))
